@@ -309,7 +309,7 @@ def validate (ls : List Line) : Option Result :=
 def parse (fuel : Nat) (input : String) : Result :=
   match run Gen.mrasm fuel (.rule "file") true input.toList with
   | .fail => .syntaxError
-  | .oof => .syntaxError   -- not reached with `defaultFuel` (the correspondence runs would show it)
+  | .oof => .syntaxError   -- not reached with `defaultFuel` (theorem `C03.parse_decides`)
   | .ok ts _ =>
     match ts with
     | [] => .panic "Infallible: Header must exist"
@@ -326,6 +326,9 @@ def parse (fuel : Nat) (input : String) : Result :=
           | some r => r
           | none => .ok ⟨hcomment, lines⟩
 
-def defaultFuel (input : String) : Nat := 40 + 4 * input.length
+/-- Fuel the driver uses: enough for every input (`C03.parse_decides`: with it the interpreter never
+answers "out of fuel"; 80 is the static height of the `file` rule, the input length pays for the
+iterations of repetitions). -/
+def defaultFuel (input : String) : Nat := 80 + 4 * input.toList.length
 
 end Emu2a.Parse
